@@ -68,6 +68,9 @@ def handle (op : String) (j : Json) : Option (Except String Json) :=
   | "c04.two_body" => some do
       .ok (J.ofOp (C04.jwTwoBody tol (← J.nat (← J.field j "p")) (← J.nat (← J.field j "q"))
         (← J.nat (← J.field j "r")) (← J.nat (← J.field j "s")) (← J.gq (← J.field j "c"))))
+  | "c04.two_body_ok" => some do
+      .ok (Json.bool (C04.jwTwoBodyOk tol (← J.nat (← J.field j "p")) (← J.nat (← J.field j "q"))
+        (← J.nat (← J.field j "r")) (← J.nat (← J.field j "s")) (← J.gq (← J.field j "c"))))
   | "c04.iop" => some do
       .ok (J.ofOp (C04.jwInteractionOp tol (← J.nat (← J.field j "n")) (← J.gq (← J.field j "constant"))
         (← gqList (← J.field j "one")) (← gqList (← J.field j "two"))))
